@@ -1,6 +1,7 @@
 // Harness for property C14: maps and structure-factor grids are exact discrete Fourier transforms.
 // Oracles compare gemmi's FFT-based results with O(N^2) direct sums in double precision.
 #include "hcommon.hpp"
+#include <cstring>
 #include <gemmi/fourier.hpp>
 #include <gemmi/asudata.hpp>
 #include <gemmi/symmetry.hpp>
@@ -116,6 +117,62 @@ static std::string handle(const std::string& cmd, const std::string& args) {
       s += " " + std::to_string(idx) + ":" + std::to_string(serial) + ":" + std::to_string(sg_) + ":" + std::to_string(kk);
     }
     return s;
+  }
+  if (cmd == "o_tfm") {
+    // transform_f_phi_to_map: the size it chooses and the map it returns
+    // args: row seed hmax rate_x10 min0 min1 min2 zyx
+    const SpaceGroup& sg = spacegroup_tables::main[to_ll(w.at(0))];
+    Lcg rng((unsigned long long) to_ll(w.at(1)));
+    int hmax = (int) to_ll(w.at(2));
+    double rate = to_ll(w.at(3)) / 10.0;
+    std::array<int,3> min_size = {{(int) to_ll(w.at(4)), (int) to_ll(w.at(5)), (int) to_ll(w.at(6))}};
+    AxisOrder order = to_ll(w.at(7)) != 0 ? AxisOrder::ZYX : AxisOrder::XYZ;
+    GroupOps gops = sg.operations();
+    UnitCell cell = cell_for(sg);
+    AsuData<std::complex<float>> ad;
+    ad.spacegroup_ = &sg;
+    ad.unit_cell_ = cell;
+    std::array<int,3> huge = {{1000, 1000, 1000}};
+    std::vector<Miller> hkls = asu_list(sg, gops, huge, hmax, rng, 0.5);
+    if (hkls.empty()) return "skip";
+    int serial = 0;
+    for (const Miller& h : hkls)
+      ad.v.push_back({h, std::polar(float(1 + (++serial % 7)), float(rng.uni() * 6.28))});
+    for (auto& hv_ : ad.v)   // centric/real reflections need a consistent phase: use the truth of a point atom instead
+      hv_.value = std::complex<float>((float) std::cos(2 * PI * (0.1 * hv_.hkl[0] + 0.2 * hv_.hkl[1] + 0.3 * hv_.hkl[2])), 0.f) * std::abs(hv_.value);
+    Grid<float> map = transform_f_phi_to_map<float>(ad, min_size, rate, false, order);
+    std::array<int,3> size = {{map.nu, map.nv, map.nw}};
+    if (order == AxisOrder::ZYX) std::swap(size[0], size[2]);
+    // (a) the size holds every index, respects min_size and the sampling rate, suits the space group and the FFT
+    double max_1_d2 = 0;
+    std::array<int,3> need = min_size;
+    for (const auto& hv_ : ad.v) {
+      max_1_d2 = std::max(max_1_d2, cell.calculate_1_d2(hv_.hkl));
+      for (int j = 0; j < 3; ++j) need[j] = std::max(need[j], 2 * std::abs(hv_.hkl[j]) + 1);
+    }
+    double cellr[3] = {cell.ar, cell.br, cell.cr};
+    for (int j = 0; j < 3; ++j) {
+      if (size[j] < need[j]) return "bad size-too-small axis " + std::to_string(j) + ": " + std::to_string(size[j]) + " < " + std::to_string(need[j]);
+      if (rate > 0 && size[j] < rate * std::sqrt(max_1_d2) / cellr[j] - 1e-9) return "bad size-below-sample-rate axis " + std::to_string(j);
+      if (!has_small_factorization(size[j])) return "bad size-not-fft-friendly " + std::to_string(size[j]);
+    }
+    try { check_grid_factors(&sg, size); } catch (std::exception&) { return "bad size-incompatible-with-spacegroup"; }
+    if (!data_fits_into(ad, size)) return "bad data-does-not-fit";
+    // (b) the map is the one of the two-step route (which o_map compares with the Fourier sum) at that size
+    Grid<float> ref = transform_f_phi_grid_to_map(get_f_phi_on_grid<float>(ad, size, true, order));
+    if (ref.data.size() != map.data.size()) return "bad map-size";
+    for (size_t i = 0; i < ref.data.size(); ++i)
+      if (std::memcmp(&ref.data[i], &map.data[i], sizeof(float)) != 0) return "bad map differs from the two-step route at " + std::to_string(i);
+    // (c) exact_size: taken as is when compatible, rejected otherwise
+    Grid<float> m2 = transform_f_phi_to_map<float>(ad, size, rate, true, order);
+    if (m2.data != map.data) return "bad exact-size map differs";
+    std::array<int,3> odd = {{size[0] + 1, size[1], size[2] + 2}};
+    bool compatible = true;
+    try { check_grid_factors(&sg, odd); } catch (std::exception&) { compatible = false; }
+    bool threw = false;
+    try { transform_f_phi_to_map<float>(ad, odd, rate, true, order); } catch (std::exception&) { threw = true; }
+    if (threw == compatible) return "bad exact-size acceptance";
+    return "ok";
   }
   if (cmd == "o_map" || cmd == "o_sf") {
     // args: row seed nu nv nw half zyx natoms
